@@ -168,3 +168,28 @@ Theorem C13_query_complete : forall ops X expr e,
   In (e_id e) (map e_id (q_events (run ops) X expr)).
 Proof. exact query_complete. Qed.
 Print Assumptions C13_query_complete.
+
+(* The segment list of an index under delete-index.  metadata.deleteTable collects the keys of the
+   org's segments of the table and deletes them one after the other ([seg_keys], [del_seg]).  For ANY
+   number of segments (induction over the key list) no rotated segment of (X, n) is left after the loop —
+   independently of the later removal of the table entry — and no other stored event is touched by it. *)
+Theorem C13_delete_removes_every_segment : forall X n l e,
+  In e (fold_left (del_seg X n) (seg_keys X n l) l) -> in_seg_tab X n e = false.
+Proof. exact delete_removes_every_segment. Qed.
+Print Assumptions C13_delete_removes_every_segment.
+
+Theorem C13_delete_segments_keeps_rest : forall X n l e,
+  In e l -> in_seg_tab X n e = false -> In e (fold_left (del_seg X n) (seg_keys X n l) l).
+Proof. exact delete_segments_keeps_rest. Qed.
+Print Assumptions C13_delete_segments_keeps_rest.
+
+(* documentation of a seeded regression (seeded/C13b): deleting while ranging over the slice that the
+   deletions shift skips every second segment — 1 of 3, 1 of 4, 3 of 7 survive, none of 1 or 2. *)
+Theorem C13_shifting_iteration_refuted :
+  exists keys, NoDup keys /\ shifting_survivors keys <> [].
+Proof. exact shifting_iteration_refuted. Qed.
+Print Assumptions C13_shifting_iteration_refuted.
+Example C13_shifting_survivors_3_4_7 :
+  shifting_survivors [0;1;2] = [1] /\ shifting_survivors [0;1;2;3] = [1] /\
+  shifting_survivors [0;1;2;3;4;5;6] = [1;3;5] /\ shifting_survivors [0;1] = [].
+Proof. exact shifting_survivors_3_4_7. Qed.
